@@ -36,7 +36,7 @@ SPECS = [
       ORA, "G1Affine::SerdeObject:contract", est=15, timeout={"quick": 600, "thorough": 1800}),
     H("c11::g1p_from_compressed_contract", "C11.K.g1p.from_compressed",
       "G1Projective::from_bytes = affine checked decoder then blst_p1_from_affine of that very point; from_bytes_unchecked skips exactly the on-curve/subgroup oracles",
-      [f"{G1}::G1Projective::from_compressed", f"{G1}::G1Projective::from_compressed_unchecked"], ORA, "G1Projective::from_compressed:contract", est=8, timeout={"quick": 600, "thorough": 1800}),
+      [f"{G1}::G1Projective::from_compressed", f"{G1}::G1Projective::from_compressed_unchecked"], ORA, "G1Projective::from_compressed:contract", est=8, timeout={"quick": 600, "thorough": 1800}, oracle_fallback=["decode-offsubgroup", "g1p"], scenario_bin="replay_real"),
     H("c11::g1a_from_xy_contract", "C11.K.g1a.from_xy", "G1Affine::from_xy(x,y) is Some iff the on-curve oracle said yes for exactly (x,y)",
       [f"{G1}::<G1Affine as CurveAffine>::from_xy"], "all coordinate limbs, all oracle answers", "G1Affine::from_xy:contract", est=5),
     H("c11::g1p_jacobian_coordinates_is_representation", "C11.K.g1p.jacobian_coordinates",
@@ -57,7 +57,7 @@ SPECS = [
        f"{G2}::G2Affine::from_uncompressed_unchecked"], ORA, "G2Affine::from_uncompressed:contract", est=40, timeout={"quick": 600, "thorough": 1800}),
     H("c11::g2p_from_compressed_contract", "C11.K.g2p.from_compressed",
       "G2Projective::from_bytes = affine checked decoder then blst_p2_from_affine of that very point; unchecked skips exactly the oracles",
-      [f"{G2}::G2Projective::from_compressed", f"{G2}::G2Projective::from_compressed_unchecked"], ORA, "G2Projective::from_compressed:contract", est=12, timeout={"quick": 600, "thorough": 1800}),
+      [f"{G2}::G2Projective::from_compressed", f"{G2}::G2Projective::from_compressed_unchecked"], ORA, "G2Projective::from_compressed:contract", est=12, timeout={"quick": 600, "thorough": 1800}, oracle_fallback=["decode-offsubgroup", "g2p"], scenario_bin="replay_real"),
     H("c11::g2p_jacobian_coordinates_is_representation", "C11.K.g2p.jacobian_coordinates",
       "G2Projective::jacobian_coordinates returns Z unchanged, hence must return the stored Jacobian X, Y unchanged",
       [f"{G2}::<G2Projective as CurveExt>::jacobian_coordinates"], "all canonical x,y,z with non-zero real parts, z != 1",
